@@ -9,11 +9,6 @@ package cache
 // eqBytes(a, b): the two byte slices have the same length and contents.
 //@ spec macro eqBytes(a []byte, b []byte) bool = len(a) == len(b) && (forall k in 0..len(a): a[k] == b[k])
 
-// io.Reader.Read: reads up to len(p) bytes into the front of p and nothing else.
-//@ external func (r io.Reader) Read(p []byte) (n int, err error)
-//@   ensures 0 <= n && n <= len(p)
-//@   assigns p
-
 //@ func (h Header) Validate(rsum, dsum, bsum []byte) (err error)
 //@   prop C13
 //@   ensures root: isnil(err) ==> eqBytes(rsum, h.RootSum)
@@ -26,9 +21,9 @@ package cache
 //@   prop C13
 //@   requires 0 <= size && size <= 1048576 && !isnil(r)
 //@   ensures isnil(err) ==> len(hd.RootSum) == size && len(hd.DataSum) == size && len(hd.BodySum) == size
+//@   guarantee full_read: isnil(err) ==> lastReadN == 3*size
 //@   ensures contiguous: isnil(err) ==> fresh(hd.RootSum) && refof(hd.DataSum) == refof(hd.RootSum) && refof(hd.BodySum) == refof(hd.RootSum) &&
 //@      offof(hd.RootSum) == 0 && offof(hd.DataSum) == size && offof(hd.BodySum) == 2*size
-//@   assigns nothing
 
 // Open / Close wiring (C13).  The hash and the file are external; what is checked is that the
 // code compares the right things in the right order.  Ghost integers maintained by the
